@@ -140,14 +140,18 @@ def first_verified_signer(U):
             return {"content": {"signer_infos": [0, 1], "certificates": ["c"]}}
     saved = m.cms
     m.cms = type("cms", (), {"ContentInfo": _CI})
+    # signature block names: the base name is everything in front of the LAST dot (dots in the base name and in directories)
+    block, sf_name = U.choice("block", [("META-INF/CERT.RSA", "META-INF/CERT.SF"), ("META-INF/CERT.V1.RSA", "META-INF/CERT.V1.SF"),
+                                        ("META-INF/A.B.C.DSA", "META-INF/A.B.C.SF"), ("META-INF/sub.dir/X.EC", "META-INF/sub.dir/X.SF")])
     try:
-        o = U.call(a.get_certificate_der, "META-INF/CERT.RSA")
+        o = U.call(a.get_certificate_der, block)
     finally:
         m.cms = saved
     U.ensures("does not raise", o.ok, exc=repr(o.exc))
     if not o.ok:
         return
-    U.ensures("the .SF with the same base name is the one checked", all(sf == b"FILE:META-INF/CERT.SF" for _, sf in seen))
+    U.ensures("the .SF with the same base name is the one checked", all(sf == b"FILE:" + sf_name.encode() for _, sf in seen), block=block,
+              got=[sf for _, sf in seen][:2])
     tried = [0] if minsdk in (None, "21") else [0, 1]
     if outcomes[0] == "error":
         want = None
@@ -252,10 +256,11 @@ def signed_apks(U):
         b[g["pos"] % len(b)] ^= 0x20
         sf_in_apk = bytes(b)
     a = object.__new__(m.APK)
-    files = {"META-INF/X.RSA": p7, "META-INF/X.SF": sf_in_apk}
+    # the base name of the block has a dot of its own; a decoy X.SF (the untouched signed content) sits next to the block's X.V1.SF
+    files = {"META-INF/X.V1.RSA": p7, "META-INF/X.V1.SF": sf_in_apk, "META-INF/X.SF": sf}
     a.get_file = lambda n: files[n]
     a.get_min_sdk_version = lambda: "21"
-    o = U.call(a.get_certificate_der, "META-INF/X.RSA")
+    o = U.call(a.get_certificate_der, "META-INF/X.V1.RSA")
     U.ensures("does not raise", o.ok, exc=repr(o.exc)[:200], **g)
     if not o.ok:
         return
